@@ -9,9 +9,10 @@ TRUSTED = [A_PY, A_BS4, A_SMT, A_PRE, 'parse_pseudo_contains (value-list decodin
 ASSUMPTIONS = TRUSTED
 EXPLANATION = ('Proved: node-kind classification (content string = NavigableString that is not comment/CDATA/PI/declaration/doctype), get_contents with the iframe cut, the hub. '
                'match_contains is proved: every list needs some text inside the joined descendant text / inside ONE own text node, the two kinds computed separately and reused; match_empty is proved. '
-               'Bounded: the text extraction itself (which nodes count, iframe cut) against the reference on trees interleaving text, comments, CDATA, PIs and iframes; value-list decoding.')
+               'get_text / get_own_text are proved to be the join / the list of the content strings among get_descendants / get_contents, and get_descendants is proved to yield, over bs4\'s pre-order el.descendants, every node (only Tags when asked) in order with the subtree below an iframe element passed over (A-bs4-preorder, validated natively). '
+               'Bounded: the same text extraction once more against an independent reference on trees interleaving text, comments, CDATA, PIs and iframes; value-list decoding.')
 LEVEL_TEXT = EXPLANATION
-TECHNIQUE = 'contract-based deductive verification (VCs from the real AST, z3/cvc5) + bounded evaluation of the text-extraction contracts'
+TECHNIQUE = 'contract-based deductive verification (VCs from the real AST, z3/cvc5) of node kinds, the descendant walk, text extraction and match_contains/match_empty + bounded evaluation against an independent reference and of value-list decoding'
 MUSTFAIL_PER_FN = {'quick': 1, 'thorough': 6}
 
 
